@@ -220,6 +220,10 @@ func (r *caseRun) runRestart(w *lifeRow, lr *lifeReport) (map[string]any, string
 			if time.Now().After(deadline) {
 				return what + " was not seen within 90s"
 			}
+			if !tx && time.Since(t0) > time.Second && !doneHandled.Load() && lifeAtRest(r.base, 200*time.Millisecond) {
+				// the Done waits behind a request the server has not answered: the answer is call 2 - make it now
+				startCall2()
+			}
 			if time.Since(t0) > 3*time.Second && doneHandled.Load() && lifeAtRest(r.base, 300*time.Millisecond) && c.Load() < n {
 				lr.dis("rest:unpredicted:no-"+strings.Fields(what)[len(strings.Fields(what))-2],
 					"the Done has been handled and the library is at rest, but "+what+" has not happened: ServerRestart.tla has no such behaviour (the old instance stops and unregisters, the new one registers)")
